@@ -108,9 +108,13 @@ pub async fn dispatch_command<W: AsyncWrite + Unpin>(
                 Ok(())
             }
         }
-        _ => {
-            error!(target: "sneldb::dispatch", ?cmd, "Unreachable command variant encountered");
-            unreachable!("dispatch_command called with non-command")
+        Batch(_) => {
+            // BATCH is accepted by the parsers but has no handler: answer it instead of panicking
+            error!(target: "sneldb::dispatch", "BATCH command is not supported by the dispatcher");
+            let resp = Response::error(StatusCode::BadRequest, "BATCH commands are not supported");
+            writer.write_all(&renderer.render(&resp)).await?;
+            writer.flush().await?;
+            Ok(())
         }
     }
 }
